@@ -691,11 +691,45 @@ void check_history(History const& h, Problem const& prob, OracleOpts const& opts
     // ---- end of plan ----
     if (opts.budget_exhausted && opts.c02)
     {
-        out.violate("C02",
-                    "no-termination",
-                    "no-termination",
-                    "stepping loop did not reach queued = alive = 0 within the step budget of "
-                        + std::to_string(opts.step_budget));
+        // Liveness as progress: the step budget is a cost cap, not a bound the
+        // property states (a shower of many tracks making centimetre steps
+        // through a large world legitimately needs more).  Running out of
+        // budget is a violation only if the last window shows no progress at
+        // all: the same tracks in the same slots with the same position,
+        // energy and time, and the same number of queued initializers.
+        auto const& fr = h.frames;
+        bool progress = true;
+        if (fr.size() > 2001)
+        {
+            Frame const& f1 = fr.back();
+            Frame const& f0 = fr[fr.size() - 2001];
+            progress = false;
+            auto const& a = f0.obs[2];
+            auto const& b = f1.obs[2];
+            if (a.size() != b.size()
+                || f0.end_counters.initializers != f1.end_counters.initializers)
+                progress = true;
+            for (std::size_t sl = 0; !progress && sl < b.size(); ++sl)
+            {
+                if (a[sl].active() != b[sl].active())
+                    progress = true;
+                else if (b[sl].active()
+                         && (a[sl].track != b[sl].track || a[sl].event != b[sl].event
+                             || a[sl].energy != b[sl].energy || a[sl].time != b[sl].time
+                             || std::memcmp(a[sl].pos, b[sl].pos, sizeof(a[sl].pos)) != 0))
+                    progress = true;
+            }
+        }
+        if (!progress)
+            out.violate("C02",
+                        "no-termination",
+                        "no-termination",
+                        "stepping loop did not reach queued = alive = 0 within the step budget of "
+                            + std::to_string(opts.step_budget)
+                            + " and made no progress over its last 2000 steps (same tracks, "
+                              "positions, energies, times and queue length)");
+        else
+            out.count("step_budget_exhausted_with_progress_(inconclusive)");
     }
     if (opts.expect_complete && model_valid && !opts.budget_exhausted)
     {
